@@ -95,6 +95,30 @@ func init() {
 		for _, f := range semanticFamilies {
 			c.Scenarios = append(c.Scenarios, f.scenario(c02Oracle))
 		}
+		// every program of the limit family under every limit triple: crash/wedge oracle only
+		c.Scenarios = append(c.Scenarios, Scenario{Name: "resource-limit-lattice", Count: func(string) int { return c09Count() }, Run: func(tier string, idx int, r *Result) {
+			r.failFilter = func(class string) bool {
+				return strings.HasPrefix(class, "HOST-PANIC") || strings.HasPrefix(class, "HANG") || strings.HasPrefix(class, "DEADLOCK") || strings.HasPrefix(class, "HARNESS")
+			}
+			c09Run(tier, idx, r)
+			r.failFilter = nil
+		}})
+		// every builtin member and index operation at the boundary arguments of C18's alphabet
+		// (including long non-ASCII strings): crash/wedge oracle only
+		crashOnly := func(run func(string, int, *Result)) func(string, int, *Result) {
+			return func(tier string, idx int, r *Result) {
+				r.failFilter = func(class string) bool {
+					return strings.HasPrefix(class, "HOST-PANIC") || strings.HasPrefix(class, "HANG") || strings.HasPrefix(class, "DEADLOCK") || strings.HasPrefix(class, "HARNESS")
+				}
+				run(tier, idx, r)
+				r.failFilter = nil
+			}
+		}
+		nMembers := func(tier string) int { return len(c18Cases(tier)) }
+		c.Scenarios = append(c.Scenarios,
+			Scenario{Name: "builtin-members-direct", Count: nMembers, Run: crashOnly(c18Direct)},
+			Scenario{Name: "builtin-members-in-programs", Count: func(tier string) int { return 2 * nMembers(tier) }, Run: crashOnly(c18Prog)})
+		// last: in the thorough tier this domain may use up the remaining time budget
 		c.Scenarios = append(c.Scenarios, freeScenario(func(text string, tags []string, a Analyzed, r *Result) {
 			r.Sample(text)
 			if hasTag(tags, "closure-capture") {
@@ -128,29 +152,6 @@ func init() {
 				}
 			}
 		}))
-		// every program of the limit family under every limit triple: crash/wedge oracle only
-		c.Scenarios = append(c.Scenarios, Scenario{Name: "resource-limit-lattice", Count: func(string) int { return c09Count() }, Run: func(tier string, idx int, r *Result) {
-			r.failFilter = func(class string) bool {
-				return strings.HasPrefix(class, "HOST-PANIC") || strings.HasPrefix(class, "HANG") || strings.HasPrefix(class, "DEADLOCK") || strings.HasPrefix(class, "HARNESS")
-			}
-			c09Run(tier, idx, r)
-			r.failFilter = nil
-		}})
-		// every builtin member and index operation at the boundary arguments of C18's alphabet
-		// (including long non-ASCII strings): crash/wedge oracle only
-		crashOnly := func(run func(string, int, *Result)) func(string, int, *Result) {
-			return func(tier string, idx int, r *Result) {
-				r.failFilter = func(class string) bool {
-					return strings.HasPrefix(class, "HOST-PANIC") || strings.HasPrefix(class, "HANG") || strings.HasPrefix(class, "DEADLOCK") || strings.HasPrefix(class, "HARNESS")
-				}
-				run(tier, idx, r)
-				r.failFilter = nil
-			}
-		}
-		nMembers := func(tier string) int { return len(c18Cases(tier)) }
-		c.Scenarios = append(c.Scenarios,
-			Scenario{Name: "builtin-members-direct", Count: nMembers, Run: crashOnly(c18Direct)},
-			Scenario{Name: "builtin-members-in-programs", Count: func(tier string) int { return 2 * nMembers(tier) }, Run: crashOnly(c18Prog)})
 		return c
 	})
 	register("C04", func() *Check {
